@@ -63,9 +63,16 @@ OPTIONS = ("ignore_occupancy", "ignore_autoclashes", "nucleic_acid_only", "requi
 class Raised(Exception):
     """The evaluated code raises on a representative (explicit `raise`, or KeyError/IndexError/... of an interpreted operation)."""
 
-    def __init__(self, what: str, node: Optional[ast.AST] = None):
+    def __init__(self, what: str, node: Optional[ast.AST] = None, orig: Optional[BaseException] = None):
         super().__init__(what)
-        self.what, self.node = what, node
+        self.what, self.node, self.orig = what, node, orig
+
+
+def _raised(ex: BaseException, e: ast.AST) -> "Raised":
+    """the program's own exception, located at the innermost subscript that raised it when known"""
+    at = getattr(ex, "_c17_node", None)
+    where = at if at is not None else e
+    return Raised(f"{type(ex).__name__}({', '.join(map(repr, ex.args))[:40]}) in `{ast.unparse(where)[:70]}`", where if hasattr(where, "lineno") else e, ex)
 
 
 PROGRAM_ERRORS = (KeyError, IndexError, ZeroDivisionError, ValueError, StopIteration)
@@ -910,6 +917,17 @@ class F(Folder):
     def _f_IfExp(self, n):
         return self.fold(n.body) if self.ev.cond(n.test, self) else self.fold(n.orelse)
 
+    def _f_Subscript(self, n):
+        try:
+            return Folder._f_Subscript(self, n)
+        except (KeyError, IndexError) as ex:
+            if getattr(ex, "_c17_node", None) is None:
+                try:
+                    ex._c17_node = n  # the innermost subscript that raises
+                except Exception:
+                    pass
+            raise
+
     def _f_Call(self, n):
         f = n.func
         fn = None
@@ -1038,7 +1056,7 @@ class Ev(BlockEval):
         except NotConst as ex:
             raise Unknown(f"`{ast.unparse(e)[:60]}`: {ex}")
         except PROGRAM_ERRORS as ex:
-            raise Raised(f"{type(ex).__name__}({', '.join(map(repr, ex.args))[:40]}) in `{ast.unparse(e)[:60]}`", e)
+            raise _raised(ex, e)
         except RecursionError:
             raise Unknown("recursion")
 
@@ -1115,7 +1133,7 @@ class Ev(BlockEval):
         except NotConst as ex:
             raise Unknown(f"`{ast.unparse(e)[:60]}`: {ex}")
         except PROGRAM_ERRORS as ex:
-            raise Raised(f"{type(ex).__name__}({', '.join(map(repr, ex.args))[:40]}) in `{ast.unparse(e)[:60]}`", e)
+            raise _raised(ex, e)
         finally:
             if transparent:
                 Ev.cond_depth -= 1
@@ -1310,6 +1328,39 @@ class Ev(BlockEval):
         elif isinstance(st, ast.Expr):
             if not isinstance(st.value, (ast.Constant, ast.Name)):
                 self.fold(st.value)
+        elif isinstance(st, ast.Try):
+            # the program's own handlers see the program's own exceptions (KeyError / IndexError ... of interpreted operations)
+            from sa.blockeval import _EXC
+
+            try:
+                self._block(st.body)
+            except Raised as r:
+                ex = r.orig
+                if ex is None:
+                    raise
+                for h in st.handlers:
+                    names = [] if h.type is None else ([ast.unparse(t).split(".")[-1] for t in h.type.elts] if isinstance(h.type, ast.Tuple) else [ast.unparse(h.type).split(".")[-1]])
+                    if h.type is None or type(ex).__name__ in names or any(t in _EXC and isinstance(ex, _EXC[t]) for t in names):
+                        if h.name:
+                            self.env[h.name] = ex
+                        try:
+                            self._block(h.body)
+                        finally:
+                            if st.finalbody:
+                                self._block(st.finalbody)
+                        break
+                else:
+                    if st.finalbody:
+                        self._block(st.finalbody)
+                    raise
+            except (_Stop, Unknown):
+                if st.finalbody and False:
+                    pass
+                raise
+            else:
+                self._block(st.orelse)
+                if st.finalbody:
+                    self._block(st.finalbody)
         elif isinstance(st, ast.AugAssign) and isinstance(st.target, (ast.Subscript, ast.Attribute)):
             load = copy_load(st.target)
             self._assign(st.target, self.fold(ast.BinOp(left=load, op=st.op, right=st.value)))
@@ -1937,6 +1988,26 @@ class WriterS(Stub):
             self.writerow(r)
 
 
+class RowS(dict):
+    """one row of a metadata category: every item present, its value a token"""
+
+    def __init__(self, category: str):
+        dict.__init__(self)
+        self.category = category
+
+    def __missing__(self, item):
+        return f"«m{self.category}.{item}»"
+
+    def get(self, item, default=None):
+        return self[item]
+
+    def __contains__(self, item):
+        return True
+
+    def __bool__(self):
+        return True
+
+
 class MetaS(Stub):
     """read_metadata result: any category -> one row -> any item -> a token."""
 
@@ -2005,7 +2076,7 @@ def representative_clashes():
 
 
 class MainEval:
-    def __init__(self, repo, mn, clashes, csv_path: Optional[str], reverse_sets: bool, switches_on: bool = True):
+    def __init__(self, repo, mn, clashes, csv_path: Optional[str], reverse_sets: bool, switches_on: bool = True, meta_class: Optional[Tuple[str, Optional[str]]] = None):
         self.cap = cap = Capture()
         # the structure of the input file: a nucleotide of a polynucleotide chain, a nucleotide ligand, an amino acid
         cap.structure = [ResidueS("«cA»", 1, [], True, token="«sA1»"), ResidueS("«cA»", 201, [], True, token="«sA201 nucleotide ligand»", name="2BA"), ResidueS("«cB»", 7, [], False, token="«sB7 amino acid»", name="ALA")]
@@ -2101,7 +2172,21 @@ class MainEval:
 
             def read_metadata(f, *a, **k):
                 cap.meta_args.append(f)
-                return MetaS()
+                cats = a[0] if a else k.get("categories")
+                if meta_class is None or not (isinstance(cats, (list, tuple)) and all(isinstance(c_, str) for c_ in cats)):
+                    return MetaS()
+                cap.meta_categories = list(cats)
+                # metareader.read_metadata: {category: [row dict, ...]}, [] for a category the file does not have
+                kind, which = meta_class
+                out_ = {}
+                for c_ in cats:
+                    if kind == "no category" and (which is None or which == c_):
+                        out_[c_] = []
+                    elif kind == "no item":
+                        out_[c_] = [{}]
+                    else:
+                        out_[c_] = [RowS(c_)]
+                return out_
 
             def _exit(*a):
                 raise Exit()
@@ -2478,6 +2563,45 @@ def check_main(chk, mn, fi=None) -> Optional[str]:
         add("report-clashes", "the printed report differs between runs with and without --csv")
     if any(_tokens(ln)[0] for ln in empty.cap.lines) or parse_rows(empty.cap.rows):
         add("report-clashes", "clashes are reported although find_clashes found none")
+    # ---- the CSV is written whatever metadata the file has ------------------------------------------------------------------
+    # (read_metadata gives [] for a category the file lacks - no `refine` for NMR / EM / assemblies, nothing at all for a
+    # PDB-format file - and a row need not have every item): in every class the CSV rows are exactly the clashes
+    chk.robust |= {"csv-metadata-total"}
+    cats = None
+    try:
+        probe = MainEval(repo, mn, L, "/out/«csv».csv", False, meta_class=("all", None))
+        cats = getattr(probe.cap, "meta_categories", None)
+    except (Unknown, Raised, RecursionError, TypeError, AttributeError, NotConst):
+        cats = None
+    if not cats:
+        if cap.meta_args:
+            chk.error("csv-metadata-total", msite, "the categories asked of read_metadata are not a literal list: the metadata classes (category absent, item absent) are not evaluated")
+    else:
+        classes = [("all", None, "every category present")] + [("no category", c_, f"category `{c_}` absent (read_metadata gives [] for it)") for c_ in cats] + [("no category", None, "no category at all (a PDB-format file: every category is [])"), ("no item", None, "the rows lack the items asked for")]
+        bad_meta: List[Tuple[str, Any]] = []
+        unread_meta = None
+        for kind, which, label in classes:
+            try:
+                run_ = MainEval(repo, mn, L, "/out/«csv».csv", False, meta_class=(kind, which))
+            except Raised as ex:
+                bad_meta.append((f"with {label} main raises {ex.what}: the CSV is left with its header only, no clash is written", ex.node))
+                continue
+            except (Unknown, RecursionError, TypeError, AttributeError, NotConst) as ex:
+                unread_meta = f"with {label}: {str(ex)[:100]}"
+                continue
+            got_rows = []
+            for cells, occ, row in parse_rows(run_.cap.rows):
+                pairs_ = [(rs, at) for rs, at in cells if len(rs) == 1 and len(at) == 1]
+                if len(pairs_) == 2 and occ:
+                    pr_ = tuple(sorted(p_[1][0] for p_ in pairs_))
+                    got_rows.append((pr_, pick(pr_, occ)))
+            if sorted(got_rows) != want:
+                bad_meta.append((f"with {label} the CSV holds {len(got_rows)} rows for {len(want)} clashes", None))
+        if unread_meta and not bad_meta:
+            chk.error("csv-metadata-total", msite, f"main not evaluable {unread_meta}")
+        else:
+            node_ = next((nd for _, nd in bad_meta if nd is not None), None)
+            chk.expect(not bad_meta, "csv-metadata-total", mn.site(node_) if node_ is not None else msite, f"the CSV rows are exactly the clashes in each of the {len(classes)} metadata classes (every category present; {', '.join('`%s`' % c_ for c_ in cats)} absent; no category at all; rows without the items)", bad_meta[0][0] if bad_meta else "", _K(mn, "csv-metadata"), found=[m_ for m_, _ in bad_meta[:4]] or None)
     # ---- obligations ---------------------------------------------------------------------------------------------------
     n = len(L)
     chk.expect("report-clashes" not in problems, "report-clashes", site, f"main evaluated on {n} representative clashes: the printed atom lines and the CSV rows are exactly the clashes found (no CSV without --csv, nothing for an empty list)", problems.get("report-clashes", [""])[0], _K(mn, "report-clashes"))
